@@ -1,6 +1,7 @@
 (* C03 — the property theorems in their final, explicit form (re-stated in Properties/C03.v).
-   Each primitive T gets roundtrip_T and prefix_rejected_T from its codec_ok lemma; the length-prefix
-   and refutation lemmas come from C03_Bytes. *)
+   All of them are about the model of the code as it is now (impl_X and the unprefixed definitions of
+   Model/Prim.v); each primitive T gets roundtrip_T and prefix_rejected_T from its codec_ok lemma.
+   Lemmas named old_... are historical facts about the PRE-FIX variants old_X. *)
 From Coq Require Import List NArith ZArith Lia Bool.
 From Coq Require Import ZifyN ZifyNat ZifyBool.
 From Verif Require Import Base.Hex Model.Prim Proofs.C03_Lib Proofs.C03_Num Proofs.C03_Bytes.
@@ -52,28 +53,28 @@ Proof. exact (pre_of _ _ _ codec_int8). Qed.
 (* ---------- fixed width k = 2, 4, 8 bytes (spec reader: io.ReadFull); floats are the unsigned case ---------- *)
 
 Lemma roundtrip_uint : forall k, (0 < k)%nat -> forall v rest, v < 256 ^ N.of_nat k ->
-  read_uint true (N.of_nat k) (write_uint k v ++ rest) = Ok (v, rest).
+  impl_read_uint (N.of_nat k) (write_uint k v ++ rest) = Ok (v, rest).
 Proof. intros k Hk. exact (rt_of _ _ _ (codec_uint k Hk)). Qed.
 Lemma prefix_rejected_uint : forall k, (0 < k)%nat -> forall v p q, v < 256 ^ N.of_nat k -> q <> [] ->
-  write_uint k v = p ++ q -> exists e, read_uint true (N.of_nat k) p = Err e.
+  write_uint k v = p ++ q -> exists e, impl_read_uint (N.of_nat k) p = Err e.
 Proof. intros k Hk. exact (pre_of _ _ _ (codec_uint k Hk)). Qed.
 
 Lemma roundtrip_int : forall k, (0 < k)%nat -> forall v rest,
   (- Z.of_N (2 ^ (8 * N.of_nat k - 1)) <= v < Z.of_N (2 ^ (8 * N.of_nat k - 1)))%Z ->
-  read_int true (N.of_nat k) (write_int k v ++ rest) = Ok (v, rest).
+  read_int (N.of_nat k) (write_int k v ++ rest) = Ok (v, rest).
 Proof. intros k Hk. exact (rt_of _ _ _ (codec_int k Hk)). Qed.
 Lemma prefix_rejected_int : forall k, (0 < k)%nat -> forall v p q,
   (- Z.of_N (2 ^ (8 * N.of_nat k - 1)) <= v < Z.of_N (2 ^ (8 * N.of_nat k - 1)))%Z -> q <> [] ->
-  write_int k v = p ++ q -> exists e, read_int true (N.of_nat k) p = Err e.
+  write_int k v = p ++ q -> exists e, read_int (N.of_nat k) p = Err e.
 Proof. intros k Hk. exact (pre_of _ _ _ (codec_int k Hk)). Qed.
 
-(* the code as written: equal to the spec reader off the trigger, zero padding on it *)
-Lemma impl_uint_off_trigger : forall w s, 0 < w -> (s = [] \/ w <= len s) ->
-  read_uint false w s = read_uint true w s.
-Proof. exact impl_read_uint_off_trigger. Qed.
-Lemma impl_uint_on_trigger : forall w s, 0 < len s < w ->
-  read_uint false w s = Ok (be_val (s ++ zeros (w - len s)), []).
-Proof. exact impl_read_uint_on_trigger. Qed.
+(* PRE-FIX reader old_read_uint (before 2257945): equal to today's reader off the trigger, zero padding on it *)
+Lemma old_uint_off_trigger : forall w s, 0 < w -> (s = [] \/ w <= len s) ->
+  old_read_uint w s = impl_read_uint w s.
+Proof. exact old_read_uint_off_trigger. Qed.
+Lemma old_uint_on_trigger : forall w s, 0 < len s < w ->
+  old_read_uint w s = Ok (be_val (s ++ zeros (w - len s)), []).
+Proof. exact old_read_uint_on_trigger. Qed.
 
 (* ---------- UUID, both layouts ---------- *)
 
@@ -85,10 +86,10 @@ Lemma prefix_rejected_uuid : forall u p q, length u = 16%nat /\ wf_bytes u -> q 
 Proof. exact (pre_of _ _ _ codec_uuid). Qed.
 
 Lemma roundtrip_uuid_ints : forall u rest, length u = 16%nat /\ wf_bytes u ->
-  read_uuid_ints true (write_uuid_ints u ++ rest) = Ok (u, rest).
+  impl_read_uuid_ints (write_uuid_ints u ++ rest) = Ok (u, rest).
 Proof. exact (rt_of _ _ _ codec_uuid_ints). Qed.
 Lemma prefix_rejected_uuid_ints : forall u p q, length u = 16%nat /\ wf_bytes u -> q <> [] ->
-  write_uuid_ints u = p ++ q -> exists e, read_uuid_ints true p = Err e.
+  write_uuid_ints u = p ++ q -> exists e, impl_read_uuid_ints p = Err e.
 Proof. exact (pre_of _ _ _ codec_uuid_ints). Qed.
 
 (* ---------- strings ---------- *)
@@ -113,56 +114,56 @@ Proof. intros max s n r. rewrite len_string_eq. apply len_limited_bound. Qed.
 (* ---------- byte arrays ---------- *)
 
 Lemma roundtrip_bytes : forall max v rest, (Z.of_N (len v) <= max)%Z /\ (Z.of_N (len v) < 2 ^ 31)%Z ->
-  read_bytes_len true max (write_bytes v ++ rest) = Ok (v, rest).
+  impl_read_bytes_len max (write_bytes v ++ rest) = Ok (v, rest).
 Proof. intro max. exact (rt_of _ _ _ (codec_bytes max)). Qed.
 Lemma prefix_rejected_bytes : forall max v p q, (Z.of_N (len v) <= max)%Z /\ (Z.of_N (len v) < 2 ^ 31)%Z ->
-  q <> [] -> write_bytes v = p ++ q -> exists e, read_bytes_len true max p = Err e.
+  q <> [] -> write_bytes v = p ++ q -> exists e, impl_read_bytes_len max p = Err e.
 Proof. intro max. exact (pre_of _ _ _ (codec_bytes max)). Qed.
 
-(* holds for the code as written too: the header is shared *)
-Lemma bad_length_rejected_bytes : forall fx2 max l tail, (- 2 ^ 31 <= l < 2 ^ 31)%Z -> (l < 0 \/ max < l)%Z ->
+(* held for the PRE-FIX reader too: the header is shared *)
+Lemma bad_length_rejected_bytes : forall max l tail, (- 2 ^ 31 <= l < 2 ^ 31)%Z -> (l < 0 \/ max < l)%Z ->
   len_bytes max (write_varint l ++ tail) = Err (if (l <? 0)%Z then ENegLen else EOverLimit) /\
-  read_bytes_len fx2 max (write_varint l ++ tail) = Err (if (l <? 0)%Z then ENegLen else EOverLimit).
+  impl_read_bytes_len max (write_varint l ++ tail) = Err (if (l <? 0)%Z then ENegLen else EOverLimit) /\
+  old_read_bytes_len max (write_varint l ++ tail) = Err (if (l <? 0)%Z then ENegLen else EOverLimit).
 Proof.
-  intros fx2 max l tail D H. pose proof (len_limited_rejects max l tail D H) as E.
+  intros max l tail D H. pose proof (len_limited_rejects max l tail D H) as E.
   split; [exact E|].
-  destruct fx2; unfold read_bytes_len, spec_read_bytes_len, impl_read_bytes_len;
-    rewrite len_bytes_eq, E; reflexivity.
+  split; unfold impl_read_bytes_len, old_read_bytes_len; rewrite len_bytes_eq, E; reflexivity.
 Qed.
 Lemma alloc_bounded_bytes : forall max s n r, len_bytes max s = Ok (n, r) -> (Z.of_N n <= max)%Z.
 Proof. intros max s n r. rewrite len_bytes_eq. apply len_limited_bound. Qed.
 
-Lemma impl_bytes_off_trigger : forall max s,
+Lemma old_bytes_off_trigger : forall max s,
   (forall n r, len_bytes max s = Ok (n, r) -> ~ (n = 0 /\ r = []) /\ ~ (0 < len r < n)) ->
-  read_bytes_len false max s = read_bytes_len true max s.
-Proof. exact impl_read_bytes_off_trigger. Qed.
+  old_read_bytes_len max s = impl_read_bytes_len max s.
+Proof. exact old_read_bytes_off_trigger. Qed.
 
 (* ---------- extended Forge short and 1.7 arrays (spec format) ---------- *)
 
 Lemma roundtrip_fshort : forall n rest, n < 2 ^ 23 ->
-  read_fshort true true (write_fshort true n ++ rest) = Ok (n, rest).
-Proof. exact (rt_of _ _ _ codec_fshort). Qed.
+  impl_read_fshort (impl_write_fshort n ++ rest) = Ok (n, rest).
+Proof. exact (rt_of _ _ _ codec_fshort_impl). Qed.
 Lemma prefix_rejected_fshort : forall n p q, n < 2 ^ 23 -> q <> [] ->
-  write_fshort true n = p ++ q -> exists e, read_fshort true true p = Err e.
-Proof. exact (pre_of _ _ _ codec_fshort). Qed.
+  impl_write_fshort n = p ++ q -> exists e, impl_read_fshort p = Err e.
+Proof. exact (pre_of _ _ _ codec_fshort_impl). Qed.
 
-Lemma roundtrip_bytes17 : forall ext v e rest, write_bytes17 true ext v = Ok e ->
-  read_bytes17 true true true (e ++ rest) = Ok (v, rest).
+Lemma roundtrip_bytes17 : forall ext v e rest, write_bytes17 ext v = Ok e ->
+  impl_read_bytes17 (e ++ rest) = Ok (v, rest).
 Proof.
   intros ext v e rest H. destruct (write_bytes17_ok ext v e H) as [L ->].
   apply (rt_of _ _ _ codec_bytes17). exact L.
 Qed.
-Lemma prefix_rejected_bytes17 : forall ext v e p q, write_bytes17 true ext v = Ok e -> q <> [] ->
-  e = p ++ q -> exists er, read_bytes17 true true true p = Err er.
+Lemma prefix_rejected_bytes17 : forall ext v e p q, write_bytes17 ext v = Ok e -> q <> [] ->
+  e = p ++ q -> exists er, impl_read_bytes17 p = Err er.
 Proof.
   intros ext v e p q H Hq E. destruct (write_bytes17_ok ext v e H) as [L E'].
   apply (pre_of _ _ _ codec_bytes17 v p q L Hq). rewrite <- E'. exact E.
 Qed.
 (* the encoder accepts exactly the lengths up to its limit *)
-Lemma write_bytes17_domain : forall fx3 ext v,
-  (exists e, write_bytes17 fx3 ext v = Ok e) <-> len v <= (if ext then forge_max else 32767).
+Lemma write_bytes17_domain : forall ext v,
+  (exists e, write_bytes17 ext v = Ok e) <-> len v <= (if ext then forge_max else 32767).
 Proof.
-  intros fx3 ext v. unfold write_bytes17. destruct ext.
+  intros ext v. unfold write_bytes17, write_bytes17_with. destruct ext.
   - destruct (N.ltb_spec forge_max (len v)) as [L|L]; split; intro H; try lia.
     + destruct H as [e H]. discriminate.
     + eexists. reflexivity.
@@ -171,15 +172,24 @@ Proof.
     + eexists. reflexivity.
 Qed.
 
-Lemma bad_length_rejected_bytes17 : forall fx2 n tail, n < 2 ^ 23 -> forge_max < n ->
-  len_bytes17 true true (write_fshort true n ++ tail) = Err EOverLimit /\
-  read_bytes17 true fx2 true (write_fshort true n ++ tail) = Err EOverLimit.
+Lemma bad_length_rejected_bytes17 : forall n tail, n < 2 ^ 23 -> forge_max < n ->
+  len_bytes17 (impl_write_fshort n ++ tail) = Err EOverLimit /\
+  impl_read_bytes17 (impl_write_fshort n ++ tail) = Err EOverLimit.
 Proof.
-  intros fx2 n tail D H. pose proof (len_bytes17_rejects n tail D H) as E.
-  split; [exact E|]. unfold read_bytes17. unfold write_fshort. rewrite E. reflexivity.
+  intros n tail D H. pose proof (len_bytes17_rejects n tail D H) as E.
+  split; [exact E|]. unfold impl_read_bytes17. rewrite E. reflexivity.
 Qed.
-Lemma alloc_bounded_bytes17 : forall fx1 fx3 s n r, len_bytes17 fx1 fx3 s = Ok (n, r) -> n <= forge_max.
+Lemma alloc_bounded_bytes17 : forall rfs s n r, len_bytes17_with rfs s = Ok (n, r) -> n <= forge_max.
 Proof. exact len_bytes17_bound. Qed.
+
+(* today's bit-operation code is the arithmetic Forge / Velocity format *)
+Lemma fshort_impl_is_spec :
+  (forall n, impl_write_fshort n = spec_write_fshort n) /\
+  (forall low r, low < 65536 -> impl_fshort_tail low r = spec_fshort_tail low r) /\
+  (forall s, wf_bytes (firstn 2 s) -> impl_read_fshort s = spec_read_fshort s).
+Proof.
+  split; [exact impl_write_fshort_is_spec|]. split; [exact impl_fshort_tail_is_spec | exact impl_read_fshort_is_spec].
+Qed.
 
 (* ---------- counted sequences ---------- *)
 
@@ -205,16 +215,16 @@ Proof. exact (pre_of _ _ _ codec_varint_array). Qed.
 
 Lemma roundtrip_properties : forall ps rest,
   Forall dom_property ps /\ (Z.of_nat (length ps) < 2 ^ 31)%Z ->
-  read_properties true (write_properties ps ++ rest) = Ok (ps, rest).
+  impl_read_properties (write_properties ps ++ rest) = Ok (ps, rest).
 Proof. exact (rt_of _ _ _ codec_properties). Qed.
 Lemma prefix_rejected_properties : forall ps p q,
   Forall dom_property ps /\ (Z.of_nat (length ps) < 2 ^ 31)%Z ->
-  q <> [] -> write_properties ps = p ++ q -> exists e, read_properties true p = Err e.
+  q <> [] -> write_properties ps = p ++ q -> exists e, impl_read_properties p = Err e.
 Proof. exact (pre_of _ _ _ codec_properties). Qed.
-(* the element loop is the same in the code as written: only the negative-count test differs *)
-Lemma roundtrip_properties_impl : forall ps rest,
+(* the element loop was the same in the PRE-FIX reader: only the negative-count test differed *)
+Lemma roundtrip_properties_old : forall ps rest,
   Forall dom_property ps /\ (Z.of_nat (length ps) < 2 ^ 31)%Z ->
-  read_properties false (write_properties ps ++ rest) = Ok (ps, rest).
+  old_read_properties (write_properties ps ++ rest) = Ok (ps, rest).
 Proof. exact (rt_of _ _ _ (codec_counted dom_property write_property read_property EPanic codec_property)). Qed.
 
 (* negative counts: rejected by the header, before make(); the capacity is at most MaxPreAllocSize *)
@@ -228,13 +238,14 @@ Proof. exact len_counted_bound. Qed.
 
 (* ---------- UTF ---------- *)
 
-Lemma roundtrip_utf : forall v rest, len v < 65536 -> read_utf true (write_utf v ++ rest) = Ok (v, rest).
+Lemma roundtrip_utf : forall v rest, len v < 65536 -> impl_read_utf (write_utf v ++ rest) = Ok (v, rest).
 Proof. exact (rt_of _ _ _ codec_utf). Qed.
 Lemma prefix_rejected_utf : forall v p q, len v < 65536 -> q <> [] ->
-  write_utf v = p ++ q -> exists e, read_utf true p = Err e.
+  write_utf v = p ++ q -> exists e, impl_read_utf p = Err e.
 Proof. exact (pre_of _ _ _ codec_utf). Qed.
 
-Lemma alloc_bounded_utf : forall fx1 s n r, wf_bytes s -> read_uint fx1 2 s = Ok (n, r) -> n < 65536.
+Lemma alloc_bounded_utf : forall s n r, wf_bytes s ->
+  (impl_read_uint 2 s = Ok (n, r) \/ old_read_uint 2 s = Ok (n, r)) -> n < 65536.
 Proof. exact alloc_bounded_utf_lemma. Qed.
 
 (* ---------- resource keys ---------- *)
@@ -269,10 +280,10 @@ Proof.
 Qed.
 
 Lemma roundtrip_minimal_key : forall k rest, dom_key k /\ dom_string0 (key_minimal k) ->
-  read_minimal_key true (write_minimal_key k ++ rest) = Ok (k, rest).
+  impl_read_minimal_key (write_minimal_key k ++ rest) = Ok (k, rest).
 Proof. exact (rt_of _ _ _ codec_minimal_key). Qed.
 Lemma prefix_rejected_minimal_key : forall k p q, dom_key k /\ dom_string0 (key_minimal k) -> q <> [] ->
-  write_minimal_key k = p ++ q -> exists e, read_minimal_key true p = Err e.
+  write_minimal_key k = p ++ q -> exists e, impl_read_minimal_key p = Err e.
 Proof. exact (pre_of _ _ _ codec_minimal_key). Qed.
 
 (* ---------- the counted loops of the model are the unbounded Go loops ---------- *)
@@ -289,35 +300,35 @@ Proof.
   split; [exact progress_varint|]. split; [exact progress_property | exact progress_key].
 Qed.
 
-(* ---------- all spec codecs at once ---------- *)
+(* ---------- all codecs of the code as it is now, at once ---------- *)
 
-Lemma C03_all_spec :
+Lemma C03_all_impl :
   codec_ok dom_varint write_varint read_varint /\
   codec_ok (fun _ => True) write_bool read_bool /\
   codec_ok (fun x => x < 256) write_uint8 read_uint8 /\
   codec_ok (fun z => (-128 <= z < 128)%Z) write_int8 read_int8 /\
-  (forall k, (0 < k)%nat -> codec_ok (fun x => x < 256 ^ N.of_nat k) (write_uint k) (read_uint true (N.of_nat k))) /\
+  (forall k, (0 < k)%nat -> codec_ok (fun x => x < 256 ^ N.of_nat k) (write_uint k) (impl_read_uint (N.of_nat k))) /\
   (forall k, (0 < k)%nat ->
      codec_ok (fun z => (- Z.of_N (2 ^ (8 * N.of_nat k - 1)) <= z < Z.of_N (2 ^ (8 * N.of_nat k - 1)))%Z)
-              (write_int k) (read_int true (N.of_nat k))) /\
+              (write_int k) (read_int (N.of_nat k))) /\
   codec_ok dom_uuid write_uuid read_uuid /\
-  codec_ok dom_uuid write_uuid_ints (read_uuid_ints true) /\
+  codec_ok dom_uuid write_uuid_ints (impl_read_uuid_ints) /\
   (forall max, codec_ok (dom_string max) write_string (read_string_max max)) /\
-  (forall max, codec_ok (dom_bytes max) write_bytes (read_bytes_len true max)) /\
-  codec_ok dom_fshort (write_fshort true) (read_fshort true true) /\
-  codec_ok (fun v => len v <= forge_max) (fun v => write_fshort true (len v) ++ v) (read_bytes17 true true true) /\
+  (forall max, codec_ok (dom_bytes max) write_bytes (impl_read_bytes_len max)) /\
+  codec_ok dom_fshort (impl_write_fshort) (impl_read_fshort) /\
+  codec_ok (fun v => len v <= forge_max) (fun v => impl_write_fshort (len v) ++ v) (impl_read_bytes17) /\
   codec_ok (dom_list dom_string0) write_strings read_string_array /\
   codec_ok (dom_list dom_varint) write_varint_array read_varint_array /\
-  codec_ok (dom_list dom_property) write_properties (read_properties true) /\
-  codec_ok (fun v => len v < 65536) write_utf (read_utf true) /\
+  codec_ok (dom_list dom_property) write_properties (impl_read_properties) /\
+  codec_ok (fun v => len v < 65536) write_utf (impl_read_utf) /\
   codec_ok dom_key (fun k => write_string (key_string k)) read_key /\
   codec_ok (dom_list dom_key) (write_counted (fun k => write_string (key_string k))) read_key_array /\
-  codec_ok dom_minkey write_minimal_key (read_minimal_key true).
+  codec_ok dom_minkey write_minimal_key (impl_read_minimal_key).
 Proof.
   split; [exact codec_varint|]. split; [exact codec_bool|]. split; [exact codec_uint8|].
   split; [exact codec_int8|]. split; [exact codec_uint|]. split; [exact codec_int|].
   split; [exact codec_uuid|]. split; [exact codec_uuid_ints|]. split; [exact codec_string|].
-  split; [exact codec_bytes|]. split; [exact codec_fshort|]. split; [exact codec_bytes17|].
+  split; [exact codec_bytes|]. split; [exact codec_fshort_impl|]. split; [exact codec_bytes17|].
   split; [exact codec_string_array|]. split; [exact codec_varint_array|].
   split; [exact codec_properties|]. split; [exact codec_utf|]. split; [exact codec_key|].
   split; [exact codec_key_array|]. exact codec_minimal_key.
@@ -334,20 +345,20 @@ Proof. split; [lia|]. split; [|split]; vm_compute; reflexivity. Qed.
 
 Lemma ex_uint64 :
   (0 < 8)%nat /\ 18446744073709551615 < 256 ^ N.of_nat 8 /\
-  read_uint true 8 (write_uint 8 18446744073709551615 ++ [1]) = Ok (18446744073709551615, [1]) /\
-  (exists e, read_uint true 8 [255; 255; 255] = Err e).
+  impl_read_uint 8 (write_uint 8 18446744073709551615 ++ [1]) = Ok (18446744073709551615, [1]) /\
+  (exists e, impl_read_uint 8 [255; 255; 255] = Err e).
 Proof. split; [lia|]. split; [vm_compute; reflexivity|]. split; [vm_compute; reflexivity|]. eexists. vm_compute. reflexivity. Qed.
 
 Lemma ex_int32 :
   (- Z.of_N (2 ^ (8 * N.of_nat 4 - 1)) <= -2 < Z.of_N (2 ^ (8 * N.of_nat 4 - 1)))%Z /\
   write_int 4 (-2) = [255; 255; 255; 254] /\
-  read_int true 4 (write_int 4 (-2)) = Ok ((-2)%Z, []).
+  read_int 4 (write_int 4 (-2)) = Ok ((-2)%Z, []).
 Proof. split; [vm_compute; split; [discriminate | reflexivity]|]. split; vm_compute; reflexivity. Qed.
 
 Lemma ex_uuid :
   let u := [1;2;3;4;5;6;7;8;9;10;11;12;13;14;15;255] in
   (length u = 16%nat /\ wf_bytes u) /\ write_uuid u = u /\ write_uuid_ints u = u /\
-  read_uuid_ints true (u ++ [9]) = Ok (u, [9]).
+  impl_read_uuid_ints (u ++ [9]) = Ok (u, [9]).
 Proof.
   cbv zeta. split; [split; [reflexivity | repeat constructor]|].
   split; [|split]; vm_compute; reflexivity.
@@ -366,30 +377,30 @@ Lemma ex_bad_length :
   len_string 16 (write_varint 65 ++ [1; 2]) = Err EOverLimit /\
   len_bytes 65536 (write_varint 65537) = Err EOverLimit /\
   len_bytes 65536 (write_varint 2147483647) = Err EOverLimit /\
-  len_bytes17 true true (write_fshort true 2097051 ++ [1]) = Err EOverLimit /\
+  len_bytes17 (impl_write_fshort 2097051 ++ [1]) = Err EOverLimit /\
   read_string_array (write_varint (-1)) = Err ENegLen.
 Proof. repeat split; vm_compute; reflexivity. Qed.
 
 Lemma ex_bytes_empty_at_end :
-  read_bytes_len true 65536 (write_bytes [] ++ []) = Ok ([], []) /\
-  read_bytes_len false 65536 (write_bytes [] ++ []) = Err EEOF.
+  impl_read_bytes_len 65536 (write_bytes [] ++ []) = Ok ([], []) /\
+  old_read_bytes_len 65536 (write_bytes [] ++ []) = Err EEOF.
 Proof. split; vm_compute; reflexivity. Qed.
 
 Lemma ex_bytes17 :
   let v := repeat 7 300 in
-  write_bytes17 true true v = Ok ([1; 44] ++ v) /\
-  read_bytes17 true true true (([1; 44] ++ v) ++ [5]) = Ok (v, [5]) /\
-  write_fshort true 40000 = [156; 64; 1] /\
-  read_fshort true true [156; 64; 1; 9] = Ok (40000, [9]) /\
-  (exists e, read_fshort true true [156; 64] = Err e).
+  write_bytes17 true v = Ok ([1; 44] ++ v) /\
+  impl_read_bytes17 (([1; 44] ++ v) ++ [5]) = Ok (v, [5]) /\
+  impl_write_fshort 40000 = [156; 64; 1] /\
+  impl_read_fshort [156; 64; 1; 9] = Ok (40000, [9]) /\
+  (exists e, impl_read_fshort [156; 64] = Err e).
 Proof. cbv zeta. split; [|split; [|split; [|split]]]; try (vm_compute; reflexivity). eexists. vm_compute. reflexivity. Qed.
 
 Lemma ex_properties :
   let ps := [([110], ([118], [])); ([97; 98], ([], [115; 105; 103]))] in
   (Forall dom_property ps /\ (Z.of_nat (length ps) < 2 ^ 31)%Z) /\
   write_properties ps = [2; 1; 110; 1; 118; 0; 2; 97; 98; 0; 1; 3; 115; 105; 103] /\
-  read_properties true (write_properties ps ++ [4]) = Ok (ps, [4]) /\
-  (exists e, read_properties true [2; 1; 110; 1; 118; 0] = Err e).
+  impl_read_properties (write_properties ps ++ [4]) = Ok (ps, [4]) /\
+  (exists e, impl_read_properties [2; 1; 110; 1; 118; 0] = Err e).
 Proof.
   cbv zeta. split.
   - split; [|vm_compute; reflexivity].
@@ -399,8 +410,8 @@ Qed.
 
 Lemma ex_utf :
   len [104; 105] < 65536 /\ write_utf [104; 105] = [0; 2; 104; 105] /\
-  read_utf true (write_utf [104; 105] ++ [1]) = Ok ([104; 105], [1]) /\
-  (exists e, read_utf true [0] = Err e).
+  impl_read_utf (write_utf [104; 105] ++ [1]) = Ok ([104; 105], [1]) /\
+  (exists e, impl_read_utf [0] = Err e).
 Proof. split; [vm_compute; reflexivity|]. split; [|split]; try (vm_compute; reflexivity). eexists. vm_compute. reflexivity. Qed.
 
 Lemma ex_key :
@@ -408,8 +419,8 @@ Lemma ex_key :
   dom_key k /\ (dom_key k /\ dom_string0 (key_minimal k)) /\
   write_key k = Ok [9; 102; 111; 111; 58; 98; 97; 114; 47; 122] /\
   read_key [9; 102; 111; 111; 58; 98; 97; 114; 47; 122; 1] = Ok (k, [1]) /\
-  read_minimal_key true (write_minimal_key k) = Ok (k, []) /\
-  read_minimal_key true (write_minimal_key (minecraft, [120])) = Ok ((minecraft, [120]), []).
+  impl_read_minimal_key (write_minimal_key k) = Ok (k, []) /\
+  impl_read_minimal_key (write_minimal_key (minecraft, [120])) = Ok ((minecraft, [120]), []).
 Proof.
   cbv zeta.
   assert (D : dom_key ([102; 111; 111], [98; 97; 114; 47; 122])).
